@@ -237,11 +237,14 @@ def ensure_coq_built(targets=None):
 class coq_lock(object):
     """One writer of compiled Coq files at a time: checks of different properties may run at the same moment, and
     two makes (or a make and an extraction reading the .vo files) in one tree give inconsistent-assumption errors."""
+    def __init__(self, shared=False):
+        self.shared = shared
+
     def __enter__(self):
         import fcntl
         os.makedirs(BUILD, exist_ok=True)
-        self.f = open(os.path.join(BUILD, "coq.lock"), "w")
-        fcntl.flock(self.f, fcntl.LOCK_EX)
+        self.f = open(os.path.join(BUILD, "coq.lock"), "a")
+        fcntl.flock(self.f, fcntl.LOCK_SH if self.shared else fcntl.LOCK_EX)
         return self
 
     def __exit__(self, *a):
@@ -435,7 +438,8 @@ class Ctx:
                 cmd = ["timeout", "600", "coqc", "-Q", COQ, "Eupsv", "-o",
                        os.path.join(outdir, os.path.basename(f)[:-2] + ".vo"), f]
                 self.checker_cmds.append(" ".join(cmd))
-                rc, out = run_cmd(cmd, cwd=COQ, timeout=700)
+                with coq_lock(shared=True):      # reads the compiled files; no make may rewrite them meanwhile
+                    rc, out = run_cmd(cmd, cwd=COQ, timeout=700)
             finally:
                 shutil.rmtree(outdir, ignore_errors=True)
             if rc != 0:
